@@ -10,6 +10,7 @@ Q5    MINIMISE  dropping `=value` is lossless only if the value is what the pars
 from __future__ import annotations
 
 import ast
+import re
 import sys
 
 from ..repo import AnalysisError, norm
@@ -52,20 +53,35 @@ def quoting(ctx):
                 "%s does not contain %s, which %s in an unquoted attribute value: such a value is written unquoted and read "
                 "back differently" % (name, [repr(c) for c in missing], "ends or changes the value"),
                 {"missing": missing}, detail={"class_size": len(cls), "special_in_unquoted_value": sorted(D_eff)})
-    tests = [n for n in cfg.nodes if n.kind == "test" and norm(n.ast) == "len(v) == 0"]
-    ok = False
-    for t in tests:
-        for m, lab in t.succ:
-            if lab is True and m.kind == "stmt" and norm(m.ast) == "quote_attr = True":
-                ok = True
-    r.check("Q2", ok, "empty-value-quoted", f.where,
+    # the empty value is always quoted: an emptiness test whose true outcome selects quoting -- in serialize() itself or
+    # in a helper of the serializer module that computes the decision
+    from ..cfg import CFG as _CFG
+    decided_in = None
+    has_policy_without_empty = False
+    for fn in list(f.module.all_functions):
+        fsrc = " ".join(norm(fn.node).split())
+        if "quote_attr_values" not in fsrc:
+            continue
+        c2 = cfg if fn is f else _CFG(fn.node)
+        for t in [n for n in c2.nodes if n.kind == "test"]:
+            tt = norm(t.ast)
+            if re.fullmatch(r"len\((\w+)\) == 0|not (\w+)|(\w+) == ''", tt):
+                for m, lab in t.succ:
+                    positive = lab is True
+                    if positive and m.kind == "stmt" and (norm(m.ast) in ("quote_attr = True", "return True")):
+                        decided_in = fn.qual
+        if decided_in is None and "== 'always'" in fsrc:
+            has_policy_without_empty = True
+    r.idiom("Q2", decided_in is not None, "empty-value-quoted", f.where,
             "an empty attribute value is not always quoted: `a=` followed by `>` or another attribute is read differently",
-            detail={"empty_value_forces_quotes": ok})
+            wrong=[(has_policy_without_empty and not any("len(" in norm(n.ast) or norm(n.ast).startswith("not ") for fn in f.module.all_functions
+                                                          if "quote_attr_values" in norm(fn.node) for n in ast.walk(fn.node) if isinstance(n, (ast.Compare, ast.UnaryOp))), None)],
+            detail={"decided_in": decided_in})
     # the policies map to the classes
-    src = " ".join(norm(f.node).split())
-    r.check("Q2", "elif self.quote_attr_values == 'spec': quote_attr = _quoteAttributeSpec.search(v) is not None" in src and
-            "elif self.quote_attr_values == 'legacy': quote_attr = _quoteAttributeLegacy.search(v) is not None" in src,
-            "policy-wiring", f.where, "the quoting policies no longer consult their regular expressions")
+    allsrc = " ".join(" ".join(norm(fn.node).split()) for fn in f.module.all_functions)
+    r.idiom("Q2", "== 'spec'" in allsrc and "_quoteAttributeSpec.search(" in allsrc and "== 'legacy'" in allsrc and "_quoteAttributeLegacy.search(" in allsrc,
+            "policy-wiring", f.where, "the quoting policies no longer consult their regular expressions",
+            wrong=[("_quoteAttributeSpec.search(" not in allsrc or "_quoteAttributeLegacy.search(" not in allsrc, None)])
 
 
 def follow(ctx):
@@ -154,7 +170,8 @@ def escaping(ctx):
             "the quoted attribute value is written without escaping the delimiter in use (%s)" % why,
             detail={"delimiter_variable": "quote_char"})
     src = " ".join(norm(f.node).split())
-    r.check("Q4", "if \"'\" in v and '\"' not in v: quote_char = '\"' elif '\"' in v and \"'\" not in v: quote_char = \"'\"" in src,
+    allsrc = " ".join(" ".join(norm(fn.node).split()) for fn in f.module.all_functions)
+    r.idiom("Q4", re.search(r"""if "'" in (\w+) and '"' not in \1: quote_char = '"' elif '"' in \1 and "'" not in \1: quote_char = "'\"""", allsrc) is not None,
             "best-quote", f.where, "use_best_quote_char no longer picks the delimiter that does not occur in the value")
 
 
